@@ -1,6 +1,7 @@
 """C12 - rule algebra: duality, negation, decomposition, alias and monotonicity laws (relational, on the extracted tables).
 
-For one subject s and one object o the laws are decided on the tables C01 extracts from the code:
+For one subject s and one object o the laws are decided on the tables C01 extracts from the code (abstract interpretation of
+Rule.assert_applies at the 6 legal points x 2 directions, rules/tables.py):
   C12.DUAL    'A should (not) import B' and 'B should (not) be imported by A' issue the same explicit query with the same arguments
               (exchange parity 1) and judge it with the same direction-independent predicate
   C12.NEG     for a fixed except flag, should and should_not read the same source and judge it with complementary predicates
@@ -12,14 +13,14 @@ For one subject s and one object o the laws are decided on the tables C01 extrac
 
 from __future__ import annotations
 
-import ast
-
-from core.guards import atoms_of, evaluate, show
-from core.loader import AnalysisError, Repo, own_nodes
+from core.loader import AnalysisError, Repo
 from core.report import Result
 
 from . import c01, c03
-from .tables import ATOMS, DETECTOR, LEGAL_POINTS, Inliner, bucket_wiring, issuing_conditions, method_mode, parse_language_doc, point_env, point_name
+from .common import where
+from .tables import (
+    EXPLICIT_QUERY, LEGAL_POINTS, Scenario, bucket_wiring, demand_run, parse_language_doc, plain_detector_class, plain_mode, point_name, point_taint, run_scenario, violations_class,
+)
 
 
 def _relabel(src: Result, dst: Result, rule_from: str, rule_to: str, only=None) -> int:
@@ -28,7 +29,31 @@ def _relabel(src: Result, dst: Result, rule_from: str, rule_to: str, only=None) 
         if o.rule == rule_from and (only is None or only(o)):
             dst.add(rule_to, o.construct, o.ok, o.detail, o.where, o.nontrivial, o.kind)
             n += 1
+    for u in src.undecided:
+        if u["rule"] == rule_from:
+            dst.undecide(rule_to, u["construct"], u["detail"], u["where"])
     return n
+
+
+def _active(repo: Repo, verb: str, exc: bool, imp: bool) -> set:
+    return {(b.source, b.mode) for b in demand_run(repo, Scenario(verb, exc, imp)).values() if not b.empty}
+
+
+def _canon(text: str) -> str:
+    """Iteration ids are allocated in evaluation order: rename them by first appearance so that two runs can be compared."""
+    import re
+
+    ids: dict[str, str] = {}
+
+    def ren(m):
+        return m.group(1) + ids.setdefault(m.group(2), str(len(ids) + 1))
+
+    return re.sub(r"(val@|\bval|\bkey|\belem)(\d+)", ren, text)
+
+
+def _shape(b) -> tuple:
+    """What a bucket judges, independent of the orientation of the reported pair."""
+    return (b.source, b.mode, b.gran, tuple(sorted((g.kind, _canon(c01.show(g.guard))) for g in b.groups)))
 
 
 def run(repo: Repo) -> Result:
@@ -41,70 +66,126 @@ def run(repo: Repo) -> Result:
         "excluded objects, so recorded pairs are monotone in the import relation (present buckets grow, absent buckets shrink)."
     )
     res.not_decided = "the laws for batched operands that are ancestors/descendants of one another beyond what the tables imply (set() collapsing and alias de-duplication intervene)."
-    res.trusted_base = ["C01's table extraction (rules/tables.py)", "C15 (evaluation is a function of its arguments)"]
-    parse_language_doc(repo)  # the oracle must still be readable (fail closed otherwise)
-    inl = Inliner(repo)
-    issues = issuing_conditions(repo, inl)
-    grv, buckets = bucket_wiring(repo, inl)
-    det = repo.cls(DETECTOR, "RuleViolationDetector")
-    modes = {b.field: method_mode(repo, inl.T, det, b.method) for b in buckets}
+    res.trusted_base = ["C01's table extraction (rules/tables.py, rules/absint.py)", "C15 (evaluation is a function of its arguments)"]
+    markers, _sem = parse_language_doc(repo)  # the oracle must still be readable (fail closed otherwise)
+    grv, buckets = bucket_wiring(repo, None)
+    viol = violations_class(repo)
+    det = plain_detector_class(repo)
 
-    def active(verb: str, exc: bool) -> set:
-        env = point_env(verb, exc)
-        return {(b.source, modes[b.field][0]) for b in buckets if evaluate(b.flag, env)}
+    def helper_of(field: str):
+        b = next((x for x in buckets if x.field == field), None)
+        return repo.lookup_method(det, b.method) if b is not None and b.method else None
 
-    # ---- duality
-    for i in issues:
-        extra = sorted(atoms_of(i.formula) - set(ATOMS))
-        if i.kind == "explicit":
-            res.add("C12.DUAL", f"{i.func.relpath}::{i.func.qualname}::explicit question independent of direction", not extra, "the explicit question is asked under a condition over (verb, except) only" if not extra else f"whether the explicit question is asked depends on {extra}: a rule and its dual no longer ask the same question", kind="decision-table")
-    for b in buckets:
-        extra = sorted(atoms_of(b.flag) - set(ATOMS))
-        res.add("C12.DUAL", f"{grv.relpath}::{grv.qualname}::flag of {b.field}", not extra, f"{b.field} is gated by {show(b.flag)}" if not extra else f"{b.field} is gated by a direction-dependent flag {show(b.flag)}", kind="decision-table")
+    # ---- duality: whether a question is asked, which buckets are active and how they judge is the same for a rule and its dual
+    for verb, exc in LEGAL_POINTS:
+        a = {imp: c01._asked(run_scenario(repo, Scenario(verb, exc, imp))) for imp in (True, False)}
+        site = next((q for imp in (True, False) for q in run_scenario(repo, Scenario(verb, exc, imp)).queries if q.name == EXPLICIT_QUERY), None)
+        prefix = f"{site.fi.relpath}::{site.fi.qualname}" if site is not None else f"{grv.relpath}::{grv.qualname}"
+        ok = ("explicit" in a[True]) == ("explicit" in a[False])
+        res.add(
+            "C12.DUAL", f"{prefix}::explicit question independent of direction @ {point_name(verb, exc)}", ok,
+            "the explicit question is asked for a rule iff it is asked for its dual" if ok else f"'{point_name(verb, exc)}': import rules ask {sorted(a[True])}, be-imported-by rules ask {sorted(a[False])}: a rule and its dual no longer ask the same question",
+            where(site.fi, site.node) if site is not None else "", kind="decision-table",
+        )
+    for f in viol.ann_attrs:
+        diff = []
+        for verb, exc in LEGAL_POINTS:
+            bi, bb = demand_run(repo, Scenario(verb, exc, True))[f], demand_run(repo, Scenario(verb, exc, False))[f]
+            if bi.empty != bb.empty:
+                diff.append(f"'{point_name(verb, exc)}': active only for {'import' if bb.empty else 'be-imported-by'} rules")
+            elif not bi.empty and (bi.source, bi.mode, bi.gran) != (bb.source, bb.mode, bb.gran):
+                diff.append(f"'{point_name(verb, exc)}': import rules judge {bi.source}/{bi.mode}/{bi.gran}, be-imported-by rules {bb.source}/{bb.mode}/{bb.gran}")
+            elif not bi.empty and bi.source == "explicit" and _shape(bi) != _shape(bb):
+                diff.append(f"'{point_name(verb, exc)}': import rules judge {bi.source}/{bi.mode}/{bi.gran}, be-imported-by rules {bb.source}/{bb.mode}/{bb.gran}")
+        h = helper_of(f)
+        prefix = f"{h.relpath}::{h.qualname}" if h is not None else f"{grv.relpath}::{grv.qualname}"
+        c01._add(
+            res, "C12.DUAL", f"{prefix}::predicate of {f} independent of direction", not diff,
+            "flag and judging predicate do not look at the rule's direction (only the orientation of the reported pair does)" if not diff else f"{f} depends on the rule's direction: " + "; ".join(diff[:2]) + " - a rule and its dual can differ",
+            where(h, h.node) if h is not None else where(grv, grv.node), "decision-table", next((t for v, e in LEGAL_POINTS for t in [point_taint(repo, v, e)] if t), ""),
+        )
     tmp = Result("C01")
-    c01.run_t1(repo, tmp, inl, parse_language_doc(repo)[0])
-    c01.run_t4(repo, tmp, inl)
+    c01.run_t4(repo, tmp, None)
     _relabel(tmp, res, "C01.T4", "C12.DUAL")
-    # judging helpers of explicit buckets must not read the direction (only the re-orientation does)
-    for b in buckets:
-        if b.source != "explicit":
-            continue
-        _mode, _gran, helper = modes[b.field]
-        reads = [n for n in own_nodes(helper.node) if isinstance(n, ast.Attribute) and n.attr.startswith("rule_specified_with_importer")]
-        res.add("C12.DUAL", f"{helper.relpath}::{helper.qualname}::predicate of {b.field} independent of direction", not reads, "the judging predicate does not look at the rule's direction" if not reads else "the judging predicate depends on the rule's direction: a rule and its dual can differ", kind="structural")
     # ---- negation
     for exc in (False, True):
-        a, b_ = active("should", exc), active("should_not", exc)
-        ok = len(a) == 1 and len(b_) == 1 and next(iter(a))[0] == next(iter(b_))[0] and {next(iter(a))[1], next(iter(b_))[1]} == {"absent", "present"}
-        res.add("C12.NEG", f"{grv.relpath}::{grv.qualname}::should vs should_not{' except' if exc else ''}", ok, f"should judges {sorted(a)}, should_not judges {sorted(b_)}: same source, complementary predicates" if ok else f"should judges {sorted(a)} but should_not judges {sorted(b_)}: for one subject and one object the two verdicts are no longer complementary", kind="decision-table")
-    for b in buckets:
-        mode, gran, helper = modes[b.field]
-        ok = (mode == "absent" and gran == "per-key") or (mode == "present" and gran == "per-pair")
-        res.add("C12.NEG", f"{helper.relpath}::{helper.qualname}::{b.field} predicate", ok, f"{mode} mode, {gran}: 'empty list for the key' vs 'non-empty list' are exact complements" if ok else f"{b.field} is judged in {mode} mode {gran}: something filters between the query result and the judgement, so should/should_not are no longer complementary", kind="structural")
+        for imp in (True, False):
+            a, b_ = _active(repo, "should", exc, imp), _active(repo, "should_not", exc, imp)
+            ok = len(a) == 1 and len(b_) == 1 and next(iter(a))[0] == next(iter(b_))[0] and {next(iter(a))[1], next(iter(b_))[1]} == {"absent", "present"}
+            if not ok or not imp:
+                break
+        c01._add(
+            res, "C12.NEG", f"{grv.relpath}::{grv.qualname}::should vs should_not{' except' if exc else ''}", ok,
+            f"should judges {sorted(map(str, a))}, should_not judges {sorted(map(str, b_))}: same source, complementary predicates" if ok
+            else f"should judges {sorted(map(str, a))} but should_not judges {sorted(map(str, b_))}: for one subject and one object the two verdicts are no longer complementary",
+            where(grv, grv.node), "decision-table", point_taint(repo, "should", exc) or point_taint(repo, "should_not", exc),
+        )
+    for f in viol.ann_attrs:
+        mode, gran, detail, und = plain_mode(repo, f)
+        h = helper_of(f)
+        prefix = f"{h.relpath}::{h.qualname}" if h is not None else f"{grv.relpath}::{grv.qualname}"
+        ok = (mode, gran) in (("absent", "per-key"), ("present", "per-pair"))
+        if mode is None:
+            continue  # never active: reported by the bucket-set comparisons (and by C01.T2)
+        c01._add(
+            res, "C12.NEG", f"{prefix}::{f} predicate", ok,
+            f"{mode} mode, {gran}: 'empty list for the key' vs 'non-empty list' are exact complements" if ok
+            else f"{f} is judged in {mode} mode {gran}: something filters between the query result and the judgement, so should/should_not are no longer complementary" + (f" [{detail}]" if detail else ""),
+            where(h, h.node) if h is not None else where(grv, grv.node), "structural", und,
+        )
     # ---- decomposition
     for exc in (False, True):
-        whole = active("should_only", exc)
-        parts = active("should", exc) | active("should_not", not exc)
-        res.add("C12.DECOMP", f"{grv.relpath}::{grv.qualname}::should_only{' except' if exc else ''}", whole == parts, f"should only{' except' if exc else ''} judges {sorted(whole)} = should{' except' if exc else ''} + should not{'' if exc else ' except'} {sorted(parts)}" if whole == parts else f"should only{' except' if exc else ''} judges {sorted(whole)}, but its two parts judge {sorted(parts)}", kind="decision-table")
+        for imp in (True, False):
+            whole = _active(repo, "should_only", exc, imp)
+            parts = _active(repo, "should", exc, imp) | _active(repo, "should_not", not exc, imp)
+            if whole != parts:
+                break
+        dtaint = point_taint(repo, "should_only", exc) or point_taint(repo, "should", exc) or point_taint(repo, "should_not", not exc)
+        c01._add(
+            res, "C12.DECOMP", f"{grv.relpath}::{grv.qualname}::should_only{' except' if exc else ''}", whole == parts,
+            f"should only{' except' if exc else ''} judges {sorted(map(str, whole))} = should{' except' if exc else ''} + should not{'' if exc else ' except'} {sorted(map(str, parts))}" if whole == parts
+            else f"should only{' except' if exc else ''} judges {sorted(map(str, whole))}, but its two parts judge {sorted(map(str, parts))}",
+            where(grv, grv.node), "decision-table", dtaint,
+        )
+        # the predicates, not only the (source, mode) pairs, coincide: same granularity in the whole and in its parts
+        for imp in (True, False):
+            w = {(b.source, b.mode, b.gran) for b in demand_run(repo, Scenario("should_only", exc, imp)).values() if not b.empty}
+            p = {(b.source, b.mode, b.gran) for v, e in (("should", exc), ("should_not", not exc)) for b in demand_run(repo, Scenario(v, e, imp)).values() if not b.empty}
+            if w != p:
+                break
+        c01._add(
+            res, "C12.DECOMP", f"{grv.relpath}::{grv.qualname}::predicates of should_only{' except' if exc else ''}", w == p,
+            "the whole and its parts judge the same answers with the same predicates" if w == p
+            else f"should only{' except' if exc else ''} judges {sorted(map(str, w))}, while should{' except' if exc else ''} / should not{'' if exc else ' except'} judge {sorted(map(str, p))}: 'should only' no longer passes exactly when both parts pass",
+            where(grv, grv.node), "decision-table", dtaint,
+        )
     # both parts ask the questions the whole asks
-    from .tables import asked_at
-
     for exc in (False, True):
-        whole = {k for k in ("explicit", "other") if asked_at(issues, k, point_env("should_only", exc))}
-        parts = {k for k in ("explicit", "other") if asked_at(issues, k, point_env("should", exc)) or asked_at(issues, k, point_env("should_not", not exc))}
-        res.add("C12.DECOMP", f"{issues[0].func.relpath}::RuleMatcher::questions of should_only{' except' if exc else ''}", whole == parts, f"questions asked: whole {sorted(whole)}, parts {sorted(parts)}", kind="decision-table")
+        for imp in (True, False):
+            whole = c01._asked(run_scenario(repo, Scenario("should_only", exc, imp)))
+            parts = c01._asked(run_scenario(repo, Scenario("should", exc, imp))) | c01._asked(run_scenario(repo, Scenario("should_not", not exc, imp)))
+            if whole != parts:
+                break
+        res.add("C12.DECOMP", f"{grv.relpath}::RuleMatcher::questions of should_only{' except' if exc else ''}", whole == parts, f"questions asked: whole {sorted(whole)}, parts {sorted(parts)}", kind="decision-table")
     # ---- alias
     tmp5 = Result("C01")
     c01.run_t5(repo, tmp5)
-    _relabel(tmp5, res, "C01.T5", "C12.ALIAS", only=lambda o: "alias rewrite" in o.construct or "anything" in o.construct)
-    # ---- monotonicity lemma
-    tmps = Result("C01")
-    c01.run_search(repo, tmps)
-    _relabel(tmps, res, "C01.S", "C12.MONO", only=lambda o: "[strict descendants]" not in o.construct and "[subject not excluded" not in o.construct)
-    tmp3 = Result("C03")
-    c03.run_r1(repo, tmp3)
-    _relabel(tmp3, res, "C03.R1", "C12.MONO")
+    _relabel(tmp5, res, "C01.T5", "C12.ALIAS", only=lambda o: "alias" in o.construct or "anything" in o.construct)
+    # ---- monotonicity lemma (search discipline; owned by the search model)
+    try:
+        tmps = Result("C01")
+        c01.run_search(repo, tmps)
+        _relabel(tmps, res, "C01.S", "C12.MONO", only=lambda o: "[strict descendants]" not in o.construct and "[subject not excluded" not in o.construct)
+        tmp3 = Result("C03")
+        c03.run_r1(repo, tmp3)
+        _relabel(tmp3, res, "C03.R1", "C12.MONO")
+        mono_ok = True
+    except AnalysisError as e:
+        res.undecide("C12.MONO", "pytestarch/eval_structure/breadth_first_searches.py", f"search model: {e}")
+        mono_ok = False
     for rule, floor in (("C12.DUAL", 12), ("C12.NEG", 8), ("C12.DECOMP", 4), ("C12.ALIAS", 3), ("C12.MONO", 12)):
-        res.floor(rule, floor, sum(1 for o in res.obligations if o.rule == rule))
-    res.analysed["bucket_sets"] = {point_name(v, e): sorted(active(v, e)) for v, e in LEGAL_POINTS}
+        if rule == "C12.MONO" and not mono_ok:
+            continue  # the search model gave up (reported as undecided above): the floor would only repeat that
+        res.floor(rule, floor, sum(1 for o in res.obligations if o.rule == rule) + sum(1 for u in res.undecided if u["rule"] == rule))
+    res.analysed["bucket_sets"] = {point_name(v, e): sorted(map(str, _active(repo, v, e, True))) for v, e in LEGAL_POINTS}
     return res
